@@ -9,6 +9,7 @@ From Coq Require Import Permutation Sorted.
 From Storage Require Import Base.Bytes Store.Model Store.UniqueProofs Store.WfSchema Store.ChildProofs.
 From Storage Require Import Store.Paging Store.PagingProofs Store.PagingChild.
 From Storage Require Import Store.XOps Store.ChildDeleteWhere.
+From Storage Require Import Store.Lookups Store.LookupsProofs Store.NoTrace.
 Import ListNotations.
 
 (* an entity created through the child store exists in both stores, and the parent's fields hold the values
@@ -227,3 +228,56 @@ Theorem delete_where_plain_child_spares_plain_parents : forall sch r c zone fuel
     present sch st' r j = true /\ (forall f, get_field sch st' r j f = get_field sch st r j f).
 Proof. exact delete_where_plain_child_spares_plain_parents_closed. Qed.
 Print Assumptions delete_where_plain_child_spares_plain_parents.
+
+(* ---- every lookup variant of the store API (Store/Lookups.v: GetEntityBucket and getEntityBucketForLoad transcribed;
+   FindById, LoadById, LoadEntity - the variant filling an entity the caller provides -, IsEntityPresent, GetEntityBucket
+   asked directly, membership in IterateValidIds / QueryIds) ----
+
+   In EVERY state, for every id: through the parent store all variants answer "is an entity"; through a child store the
+   bucket-level variants answer "has child data"; FindById, LoadById and LoadEntity give ONE answer ([loadable]) - for a
+   plain child store "has child data" (what its query shows), for an extended child store "is an entity of the parent"
+   (what its query shows: ALL parent entities, with or without extension data) *)
+Theorem lookups_agree : forall sch r c st i,
+  wf_child_b sch r c = true ->
+  (lk_find_by_id sch st r i = present sch st r i /\ lk_load_by_id sch st r i = present sch st r i /\
+   lk_load_entity sch st r i = present sch st r i /\ lk_is_entity_present sch st r i = present sch st r i /\
+   lk_bucket sch st r i = present sch st r i /\ lk_valid_id sch st r i = present sch st r i /\
+   lk_queried sch st r i = present sch st r i) /\
+  (lk_is_entity_present sch st c i = present sch st c i /\ lk_bucket sch st c i = present sch st c i /\
+   lk_valid_id sch st c i = present sch st c i) /\
+  (lk_find_by_id sch st c i = loadable sch st c i /\ lk_load_by_id sch st c i = loadable sch st c i /\
+   lk_load_entity sch st c i = loadable sch st c i) /\
+  (is_ext sch c = false -> loadable sch st c i = present sch st c i /\ lk_queried sch st c i = present sch st c i) /\
+  (is_ext sch c = true -> loadable sch st c i = present sch st r i /\ lk_queried sch st c i = present sch st r i) /\
+  (present sch st c i = true -> present sch st r i = true).
+Proof. exact lookups_agree_closed. Qed.
+Print Assumptions lookups_agree.
+
+(* the string-list helpers built on GetEntityBucket (GetRelatedEntitiesIdList / GetRelatedEntitiesCursor / IsEntityRelated):
+   through the parent store they show the stored string set; through a child store nothing of a set the child store
+   does not keep in its own sub-bucket *)
+Theorem related_lookups_agree : forall sch r c st i f,
+  wf_child_b sch r c = true ->
+  lk_related sch st r i f = get_set sch st r i f /\
+  (child_owns_set sch c f = false -> lk_related sch st c i f = []) /\
+  (forall x, lk_is_related sch st r i f x = true <-> In x (get_set sch st r i f)).
+Proof. exact related_agree_closed. Qed.
+Print Assumptions related_lookups_agree.
+
+(* ---- families with SEVERAL child stores: c is ANY child store of r, s0 ANY store of the family (the parent, c, or
+   another child store - extended or plain, registered before or after c).  After a successful DeleteById through s0, in
+   every reachable state of a schema that passes wf_notrace_b (C06): no lookup variant finds the id through r or c; no
+   unique index kept for the family - the parent's and EVERY child store's own - holds an entry pointing at the id; no
+   set-index bucket lists it; no back-reference set of an fk index declared on any store of the family holds it *)
+Theorem delete_removes_every_part : forall sch fuel (txs : list tx) oc fuel' evs r c s0 x st' evs',
+  wf_notrace_b sch = true -> wf_child_b sch r c = true -> root_of sch s0 = r ->
+  delete_by_id sch oc fuel' (run_txs sch fuel st_empty txs, evs) s0 x = Ok (st', evs') ->
+  (present sch st' r x = false /\ present sch st' c x = false /\ loadable sch st' c x = false /\
+   lk_find_by_id sch st' r x = false /\ lk_find_by_id sch st' c x = false /\
+   lk_load_entity sch st' c x = false /\ lk_is_entity_present sch st' c x = false /\
+   lk_valid_id sch st' c x = false /\ lk_queried sch st' c x = false) /\
+  (forall f v, al_get v (uidx st' r f) <> Some x) /\
+  (forall f v, ~ In x (sbucket st' r f v)) /\
+  (forall s f t b nl ti, root_of sch s = r -> In (CFkIndex f t b nl) (cons_of sch s) -> ~ In x (eset st' (root_of sch t) ti b)).
+Proof. exact delete_removes_every_part_closed. Qed.
+Print Assumptions delete_removes_every_part.
